@@ -93,13 +93,14 @@ type alphabet struct {
 	// request shape: every (token, caller, scope list) is sent in the default shape (parameters
 	// in the body, form client_id as the method prescribes); every (token, caller) is also sent
 	// in every non-default shape with the scope lists named in Lite.
-	Cids     []string // form client_id values besides the method's default: absent | own | owner | unknown | other
-	Chans    []string // parameter channels besides "body": gtq | query | get | gtmix | multipart
-	PairCids []string // form client_id classes that are also combined with every channel of Chans (the other classes deviate alone)
-	Lite     []string // names of the scope lists combined with a non-default form client_id (both deviate: the first one only)
-	LiteChan []string // names of the scope lists combined with a non-default channel
-	Lapse    []string // clients whose refresh-grant registration can be withdrawn in mid-history (operation lapse|<client>)
-	Flags    bool     // methods run: the part is additionally built for the provider flags AuthMethodPost / AuthMethodPrivateKeyJWT on and off
+	Cids        []string   // form client_id values besides the method's default: absent | own | owner | unknown | other
+	Chans       []string   // parameter channels besides "body": gtq | query | get | gtmix | multipart
+	PairCids    []string   // form client_id classes that are also combined with every channel of Chans (the other classes deviate alone)
+	Lite        []string   // names of the scope lists combined with a non-default form client_id (both deviate: the first one only)
+	LiteChan    []string   // names of the scope lists combined with a non-default channel
+	Lapse       []string   // clients whose refresh-grant registration can be withdrawn in mid-history (operation lapse|<client>)
+	OwnerScopes []scopeDef // further scope lists, sent in the plain request shape by the plainly authenticated callers (Authed yes) only
+	Flags       bool       // methods run: the part is additionally built for the provider flags AuthMethodPost / AuthMethodPrivateKeyJWT on and off
 }
 
 const (
@@ -273,6 +274,17 @@ func callersMethodsThorough() []callerDef {
 		callerDef{Name: "postwrong+jwt", Client: "post", Mode: "post", Secret: "wrong", Assert: "jwt|p256b/jk2", Authed: "either", Class: "two-credentials-one-wrong"},
 		callerDef{Name: "web+jwt", Client: "web", Mode: "basic", Secret: "secret-web", Assert: "jwt|p256b/jk2", Authed: "either", Class: "two-credentials"},
 	)
+}
+
+// scopesNearMiss: lists that differ from the grant of the methods families (sM) in ONE element that
+// is a near miss of a granted scope: one character shorter, one longer, case-changed, a substring.
+func scopesNearMiss() []scopeDef {
+	return []scopeDef{
+		{"nm-trunc", "openid emai offline_access"},
+		{"nm-ext", "openid emailx offline_access"},
+		{"nm-case", "openid Email offline_access"},
+		{"nm-sub", "openid mail offline_access"},
+	}
 }
 
 func scopesMethods() []scopeDef {
@@ -573,6 +585,11 @@ func (p *part) ops(s *state) []string {
 			c := &p.A.Callers[ci]
 			for _, sc := range p.A.Scopes {
 				out = append(out, "refresh|"+t.ref+"|"+c.Name+"|"+sc.Name)
+			}
+			if c.Authed == "yes" {
+				for _, sc := range p.A.OwnerScopes {
+					out = append(out, "refresh|"+t.ref+"|"+c.Name+"|"+sc.Name)
+				}
 			}
 			for _, sh := range p.shapes(c, t.owner) {
 				lite := p.A.Lite
@@ -1064,6 +1081,11 @@ func (w *worker) doRefresh(s *state, tokRef, callerName, scopeName, cid, ch stri
 			sd = &p.A.Scopes[i]
 		}
 	}
+	for i := range p.A.OwnerScopes {
+		if sd == nil && p.A.OwnerScopes[i].Name == scopeName {
+			sd = &p.A.OwnerScopes[i]
+		}
+	}
 	if cd == nil || sd == nil || (ch != chanBody && chanTag[ch] == "") {
 		p.c.Internal("bad refresh op: " + callerName + " " + scopeName + " " + cid + " " + ch)
 		return engine.OK("internal", "bad-op")
@@ -1470,7 +1492,7 @@ func TestCheck(t *testing.T) {
 		Cids: cidsQuick, Chans: chansQuick, Lite: liteScopes, LiteChan: liteScopes}, 12, true, nil},
 		// registered method x presented credential x provider flags
 		{"/methods", alphabet{Fams: famsMethods(), Callers: callersMethods(), Scopes: scopesMethods(),
-			Cids: cidsQuick, Lite: liteScopes, Flags: true}, 12, false, flagGrid}}
+			OwnerScopes: scopesNearMiss(), Cids: cidsQuick, Lite: liteScopes, Flags: true}, 12, false, flagGrid}}
 	// Replay mode (always started with tier quick) uses the thorough runs: their alphabets are supersets
 	// of the quick one with the same initial states, and only the part named in the replay file is executed.
 	if c.Thorough() || c.ReplayFile != "" {
@@ -1486,14 +1508,14 @@ func TestCheck(t *testing.T) {
 			{"/lapse", alphabet{Fams: famsLapse(), Callers: callersLapse(), Scopes: scopesLapse(),
 				Cids: cidsQuick, Chans: chansQuick, Lite: liteScopes, LiteChan: liteScopes, Lapse: []string{"web", "jwt", "pub"}}, 16, false, nil},
 			// registered method x presented credential (also related secrets, two credentials) x every request shape x the whole flag grid
-			{"/methods", alphabet{Fams: famsMethods(), Callers: callersMethodsThorough(), Scopes: scopesMethodsThorough(), Missing: true,
+			{"/methods", alphabet{Fams: famsMethods(), Callers: callersMethodsThorough(), Scopes: scopesMethodsThorough(), OwnerScopes: scopesNearMiss(), Missing: true,
 				Cids: cidsThorough, Chans: chansQuick, PairCids: []string{"owner"}, Lite: liteScopes, LiteChan: liteScopes, Flags: true}, 16, false, flagGrid},
 		}
 	}
 	var desc []map[string]any
 	for _, r := range runs {
 		checkCallers(c, config(false), r.A.Callers)
-		desc = append(desc, map[string]any{"part_suffix": r.Suffix, "families": r.A.Fams, "callers": r.A.Callers, "scope_lists": r.A.Scopes,
+		desc = append(desc, map[string]any{"part_suffix": r.Suffix, "families": r.A.Fams, "callers": r.A.Callers, "scope_lists": r.A.Scopes, "scope_lists_of_plainly_authenticated_callers": r.A.OwnerScopes,
 			"missing_token": r.A.Missing, "form_client_id": r.A.Cids, "channels": r.A.Chans, "form_client_id_x_every_channel": r.A.PairCids,
 			"scope_lists_with_other_client_id": r.A.Lite, "scope_lists_with_other_channel": r.A.LiteChan, "registration_withdrawn_in_history": r.A.Lapse, "max_depth": r.Depth, "refresh_off_too": r.Off,
 			"provider_flags_post_pkjwt": map[bool][][2]bool{true: allOn, false: r.Flags}[r.Flags == nil]})
